@@ -250,7 +250,7 @@ fn hkdf_expand_l2() { hkdf_expand_case::<2>() }
 fn hkdf_expand_l0() { hkdf_expand_case::<0>() }
 // RFC 5869 2.3: L <= 255 * HashLen.  Concrete key material (the limit does not depend on it), real block counter: 255 blocks are
 // produced, the 256th is refused loudly (`checked_add` on the u8 counter), also when it would be a partial block.
-// @harness props=C10,C20 kind=bounded bound=L=511,os=2,concrete_inputs tier=quick expect=refuse timeout=900
+// @harness props=C10,C20 kind=bounded bound=L=511,os=2,concrete_inputs tier=thorough expect=refuse timeout=1200
 #[kani::proof]
 #[kani::unwind(258)]
 fn hkdf_expand_refuses_block_256() {
